@@ -26,6 +26,8 @@ the function has exactly the defect looked for.
 """
 import copy
 import time
+import pickle
+import base64
 import functools
 import random
 import numpy as np
@@ -190,6 +192,8 @@ class BufferReuse:
         self.current_case = None
         self.sequence = None       # cases to replay for the last violation
         self.rng = random.Random(20240607)
+        self.attached = {}         # label -> the monitor's way of calling the function (used by replay_witness)
+        self.exhaustive = False    # replays: every call takes part (sampling by `every` / per_case depends on what ran before)
         self.per_case = 6          # at most this many differentials-bearing calls per case (cost bound)
         self.max_call_s = 0.02     # calls that cost more CPU than this are left alone (the protocol repeats a call ~10 times)
         self.used = 0
@@ -228,12 +232,14 @@ class BufferReuse:
             post = [x.__dict__ for x in a if isinstance(getattr(x, '__dict__', None), dict) and not isinstance(x, np.ndarray)]
             return ('ok', key(r) if key else r, post)
 
+        mon.attached[label] = call
+
         @functools.wraps(orig)
         def wrapper(*a, **k):
             if not mon.enabled or mon.depth > 0:
                 return orig(*a, **k)
             ncall[0] += 1
-            if ncall[0] % every or mon.used >= mon.per_case or (skip is not None and skip(a, k)) or slow[0] > 0:
+            if ((ncall[0] % every or mon.used >= mon.per_case or slow[0] > 0) and not mon.exhaustive) or (skip is not None and skip(a, k)):
                 slow[0] -= 1 if slow[0] > 0 else 0
                 return orig(*a, **k)
             mon.used += 1
@@ -343,8 +349,10 @@ class BufferReuse:
             for i in range(n):
                 bufs[i] = _refill(bufs[i], old[i], base[i])
             call(bufs[:na], dict(zip(names, bufs[na:])))
-            for i in sub:
-                bufs[i] = _refill(bufs[i], pre[i], base[i])
+            # (the call just made may itself have changed its arguments - a spline set keeps its fit - so every slot is put back:
+            #  the chosen ones take the new content, the others the earlier content again)
+            for i in range(n):
+                bufs[i] = _refill(bufs[i], pre[i] if i in sub else old[i], base[i])
             # fresh objects with the same content, built from pristine copies slot by slot: nothing the function may have stored
             # on the buffers (or tied to their identity) comes along
             mixed1 = [copy.deepcopy(pre[i] if i in sub else old[i]) for i in range(n)]
@@ -362,7 +370,8 @@ class BufferReuse:
                                        'objects it does not own' % (label, 'all arguments new' if len(sub) == n else
                                                                     'arguments %s new, the others as the earlier call left them' % sorted(sub)),
                                        {'function': label, 'refilled_slots': sorted(sub), 'n_slots': n,
-                                        'reused': repr(r_reuse)[:300], 'fresh': repr(r_fresh)[:300]}))
+                                        'reused': repr(r_reuse)[:300], 'fresh': repr(r_fresh)[:300],
+                                        'brd_witness': _pack((label, old, pre, sorted(sub), na, names, base))}))
                     self.sequence = [c for c in (warm_case, self.current_case) if c is not None]
                     ent[2] = self.current_case
                     return
@@ -382,3 +391,43 @@ class BufferReuse:
                         return
         ent[3] = pre                                                 # next time "before" means this call
         ent[2] = self.current_case
+
+    def replay_witness(self, blob):
+        """Re-enact a recorded buffer-reuse violation from its stored contents (independent of which calls the sampling picks):
+        returns a message if the function still answers differently on reused and on fresh objects, else None."""
+        label, old, pre, sub, na, names, base = pickle.loads(base64.b64decode(blob))
+        call = self.attached.get(label)
+        if call is None:
+            return 'function %s is not attached in this check any more' % label
+        n = len(old)
+        SUSPEND[0] += 1
+        self.in_protocol = True
+        self.depth += 1
+        try:
+            bufs = [copy.deepcopy(v) for v in old]
+            call(bufs[:na], dict(zip(names, bufs[na:])))
+            call(bufs[:na], dict(zip(names, bufs[na:])))
+            for i in range(n):
+                bufs[i] = _refill(bufs[i], pre[i] if i in sub else old[i], base[i])
+            mixed = [copy.deepcopy(pre[i] if i in sub else old[i]) for i in range(n)]
+            mixed2 = [copy.deepcopy(pre[i] if i in sub else old[i]) for i in range(n)]
+            r_reuse = call(bufs[:na], dict(zip(names, bufs[na:])))
+            r_fresh = call(mixed[:na], dict(zip(names, mixed[na:])))
+            r_fresh2 = call(mixed2[:na], dict(zip(names, mixed2[na:])))
+        finally:
+            SUSPEND[0] -= 1
+            self.in_protocol = False
+            self.depth -= 1
+        if not same(r_reuse, r_fresh) and same(r_fresh, r_fresh2):
+            return ('%s: called on argument objects it had been called on before, refilled in place, it answers differently from the '
+                    'same call on fresh copies of the same content (recorded contents re-enacted)' % label)
+        return None
+
+
+def _pack(obj):
+    try:
+        b = base64.b64encode(pickle.dumps(obj, protocol=4)).decode('ascii')
+        return b if len(b) < 24 << 20 else None
+    except Exception:
+        return None
+
